@@ -113,6 +113,11 @@ def validate_with(ctx: Ctx, files, cfg: str, module: str):
         if covr:
             for c in json.loads(tlc.tla_str_to_py(covr[-1])):
                 tv.cov.add(tuple(c))
+        divg = tlc.printed(res, "DIVG")
+        if divg:
+            for d in json.loads(tlc.tla_str_to_py(divg[-1])):
+                d["file"] = Path(path).name
+                tv.divg.append(d)
         tv.lines += max(0, res.distinct - 1)
     return tv
 
